@@ -26,8 +26,10 @@ type SEnv struct {
 	depth   int
 	qfacts  *[]Term
 	qstack  []*qlevel
+	locSt   *State // state in which local variables are read (old() does not rewind locals)
 	pkgCtx  *types.Package // package context override (bodies of spec funcs of another package)
 	assumeMode bool // the formula being evaluated will be assumed, not proved
+	inSpecFunc bool // evaluating the body of a spec func: only its parameters and package-level names are visible
 	localsFirst bool // identifiers denote current values of locals/params (loop invariants, call-site asserts)
 }
 
@@ -74,6 +76,39 @@ func (e *SEnv) pkg() *types.Package {
 type qlevel struct {
 	vars  []string
 	facts *[]Term
+	lets  [][2]string // (name, term) in definition order
+}
+
+// qname gives a (possibly large) term a name: a constant definition when it is
+// ground, a let-binding of the innermost quantifier whose variables it mentions
+// otherwise.
+func (e *SEnv) qname(t Term, sort string) Term {
+	vc := e.vc
+	if len(t) < 48 {
+		return t
+	}
+	for i := len(e.qstack) - 1; i >= 0; i-- {
+		lv := e.qstack[i]
+		for _, v := range lv.vars {
+			if strings.Contains(t, v) {
+				for _, l := range lv.lets {
+					if l[1] == t {
+						return l[0]
+					}
+				}
+				vc.n++
+				name := fmt.Sprintf("l!%d", vc.n)
+				lv.lets = append(lv.lets, [2]string{name, t})
+				lv.vars = append(lv.vars, name)
+				return name
+			}
+		}
+	}
+	saved := vc.inQuant
+	vc.inQuant = 0
+	n := vc.define("sl", sort, t)
+	vc.inQuant = saved
+	return n
 }
 
 func (e *SEnv) mentionsBound(t Term) bool {
@@ -123,15 +158,7 @@ func (e *SEnv) load(st *State, ref, off Term, t types.Type) Val {
 	v := vc.loadAt(st, ref, off, t)
 	ks := vc.p.lay.of(t).Kinds
 	for i := range v.S {
-		if vc.inQuant == 0 {
-			v.S[i] = vc.define("sl", ks[i].Sort(), v.S[i])
-		} else if !e.mentionsBound(v.S[i]) {
-			// ground sub-term inside a quantifier: name it outside
-			saved := vc.inQuant
-			vc.inQuant = 0
-			v.S[i] = vc.define("sl", ks[i].Sort(), v.S[i])
-			vc.inQuant = saved
-		}
+		v.S[i] = e.qname(v.S[i], ks[i].Sort())
 	}
 	e.addFact(st, vc.wellTyped(st, v))
 	return v
@@ -141,6 +168,13 @@ func (e *SEnv) load(st *State, ref, off Term, t types.Type) Val {
 func (e *SEnv) stOf(v Val) *State {
 	if v.Old != nil {
 		return v.Old
+	}
+	return e.cur
+}
+
+func (e *SEnv) localState() *State {
+	if e.locSt != nil {
+		return e.locSt
 	}
 	return e.cur
 }
@@ -409,6 +443,9 @@ func (e *SEnv) quant(x *SQuant) Val {
 	} else {
 		body = tAnd(append(guards, body)...)
 	}
+	for i := len(lv.lets) - 1; i >= 0; i-- {
+		body = fmt.Sprintf("(let ((%s %s)) %s)", lv.lets[i][0], lv.lets[i][1], body)
+	}
 	return boolVal(fmt.Sprintf("(%s (%s) %s)", q, strings.Join(binders, " "), body))
 }
 
@@ -440,6 +477,14 @@ func (e *SEnv) resolveType(s string) types.Type {
 	}
 	tv, err := types.Eval(e.vc.p.fset, e.pkg(), e.fnPos(), s)
 	if err != nil {
+		// import names differ per file: try the file scopes of the whole package
+		if pk := e.vc.p.byPath[e.pkg().Path()]; pk != nil {
+			for _, f := range pk.Syntax {
+				if tv2, err2 := types.Eval(e.vc.p.fset, e.pkg(), f.End()-1, s); err2 == nil {
+					return tv2.Type
+				}
+			}
+		}
 		e.fail("type %q: %v", s, err)
 	}
 	return tv.Type
@@ -459,7 +504,7 @@ func (e *SEnv) fnPos() token.Pos {
 func (e *SEnv) ident(name string) Val {
 	if e.localsFirst && e.fr != nil && e.fr.fn == e.fn {
 		if _, isParam := e.fr.specVars[name]; isParam {
-			if v, ok := e.fr.lookupLocal(e.cur, name, e.block); ok {
+			if v, ok := e.fr.lookupLocal(e.localState(), name, e.block); ok {
 				return v
 			}
 		}
@@ -495,8 +540,8 @@ func (e *SEnv) ident(name string) Val {
 		}
 	}
 	// local variable of the function
-	if e.fr != nil && e.fr.fn == e.fn {
-		if v, ok := e.fr.lookupLocal(e.cur, name, e.block); ok {
+	if e.fr != nil && e.fr.fn == e.fn && !e.inSpecFunc {
+		if v, ok := e.fr.lookupLocal(e.localState(), name, e.block); ok {
 			return v
 		}
 	}
@@ -723,8 +768,10 @@ func (e *SEnv) index(x *SIndex) Val {
 		has := vc.mapHas(e.stOf(base), base.S[0], k)
 		z := vc.zeroVal(u.Elem())
 		out := Val{T: u.Elem(), Old: base.Old}
+		has = e.qname(has, "Bool")
+		eks := vc.p.lay.of(u.Elem()).Kinds
 		for i := range v.S {
-			out.S = append(out.S, tIte(has, v.S[i], z.S[i]))
+			out.S = append(out.S, e.qname(tIte(has, v.S[i], z.S[i]), eks[i].Sort()))
 		}
 		e.addFact(e.stOf(base), vc.wellTyped(e.stOf(base), out))
 		return out
@@ -746,6 +793,9 @@ func (e *SEnv) call(x *SCall) Val {
 		switch id.Name {
 		case "old":
 			n := e.sub()
+			if n.locSt == nil {
+				n.locSt = e.cur
+			}
 			n.cur = e.old
 			if n.cur == nil {
 				e.fail("old() not available here")
@@ -830,10 +880,10 @@ func (e *SEnv) call(x *SCall) Val {
 			return intVal(arg(0).S[0])
 		case "$idx":
 			k, _ := strconv.Atoi(x.Args[0].(*SInt).V)
-			return intVal(e.fr.rangeIndex(e.cur, k))
+			return intVal(e.fr.rangeIndex(e.localState(), k))
 		case "$seen":
 			k, _ := strconv.Atoi(x.Args[0].(*SInt).V)
-			return boolVal(tSel(e.fr.rangeSeen(e.cur, k), vc.keyTerm(arg(1))))
+			return boolVal(tSel(e.fr.rangeSeen(e.localState(), k), vc.keyTerm(arg(1))))
 		case "$dom0":
 			k, _ := strconv.Atoi(x.Args[0].(*SInt).V)
 			return boolVal(tSel(e.fr.rangeDom0(e.cur, k), vc.keyTerm(arg(1))))
@@ -1024,6 +1074,9 @@ func (e *SEnv) specCall(sf *SpecFunc, argx []SExpr) Val {
 		n.vars[p.Name] = args[i]
 	}
 	n.ct = nil
+	n.localsFirst = false
+	n.inSpecFunc = true
+	n.results = nil
 	if ctx != nil {
 		n.pkgCtx = ctx
 	}
@@ -1053,8 +1106,9 @@ func (e *SEnv) pureCall(fn *ssa.Function, args []Val) Val {
 		}
 	}
 	saveQuiet := vc.quiet
+	savePos := vc.curPos
 	vc.quiet = true
-	defer func() { vc.quiet = saveQuiet }()
+	defer func() { vc.quiet = saveQuiet; vc.curPos = savePos }()
 	st := e.cur.clone()
 	st.pc = tTrue
 	depth := 1
